@@ -1,6 +1,1124 @@
-//! C05 — not implemented yet.
+//! C05 — Statistics-based row-group skipping is sound.
+//!
+//! Generator: one Parquet table of 2..12 tiny row groups (1..5 rows each) over
+//! k0 BIGINT, i0 INTEGER, f0 DOUBLE, s0 VARCHAR, d0 DATE (+ rid BIGINT). Every
+//! row group draws its values around its own base so min/max differ between
+//! row groups; NULL-only row groups, NaN/-NaN/-0.0/+-inf, |v| > 2^53, values
+//! outside i32 in the BIGINT column, non-ASCII and > 64-byte strings, a small
+//! statistics-truncate length, statistics disabled per column. Predicates:
+//! comparisons (literal on either side; literal types Int64, Int32, Float64,
+//! Float32, Date32, Utf8, Timestamp — also across column types), [NOT] BETWEEN,
+//! [NOT] IN, NOT, AND, OR, and a few column-vs-column comparisons.
+//!
+//! Check `prune` (direct API): the file is written, its footer read, and
+//!  (a) every row group ABSENT from `prune_row_groups` has no row where the
+//!      engine's interpreter (`evaluate_expr`) says TRUE;
+//!  (b) every row group for which `row_group_definitely_matches` says true has
+//!      the predicate TRUE on all of its rows.
+//! Check `e2e` / `e2e_streaming`: `SELECT rid … WHERE p` and an aggregate over
+//! the same WHERE through the Parquet registration (eager filtered scan,
+//! morsel aggregate; forced streaming scan) equal the memory registration.
+//!
+//! Known findings (classified per unsound ATOM of the predicate in the failing
+//! row group; anything not explained by one of them is a plain failure):
+//!  * `definite-match-ignores-nan` — NaN rows are invisible to min/max, so
+//!    `row_group_definitely_matches` proves `f <= 2.0` for a group holding NaN;
+//!  * `prune-float-total-order` — the pruner compares f64 with IEEE operators,
+//!    the interpreter with totalOrder (NaN above +inf, -0.0 < 0.0);
+//!  * `definite-f64-rounding` — `definite_comparison` casts i64 min/max and
+//!    literal to f64 (wrong beyond 2^53);
+//!  * `prune-i32-narrowing` — `check_i32_stats` narrows Int64 min/max `as i32`.
+//! (Before the engine's AND/OR became Kleene, `definitely(A OR B)` disagreed
+//! with the interpreter when B was NULL; replays/C05/regr-definite-or-null.json
+//! keeps that case as a regression.)
 use super::Property;
+use crate::data::{self, ColType, Table, TempDir, Value};
+use crate::engine;
+use crate::runner::*;
+use arrow::array::*;
+use arrow::datatypes::{DataType, SchemaRef};
+use arrow::record_batch::RecordBatch;
+use parquet::arrow::arrow_reader::ParquetRecordBatchReaderBuilder;
+use parquet::file::metadata::ParquetMetaData;
+use proptest::prelude::*;
+use query_engine::physical::operators::evaluate_expr;
+#[allow(unused_imports)]
+use query_engine::physical::PhysicalOperator;
+use query_engine::planner::{BinaryOp, Column, Expr, LogicalPlan, ScalarValue, UnaryOp};
+use query_engine::storage::row_group_pruning::{
+    prune_row_groups, row_group_definitely_matches, row_group_might_match,
+};
+use serde::{Deserialize, Serialize};
+use std::path::{Path, PathBuf};
+use std::sync::Arc;
+
+pub const KF_NAN_DEF: &str = "definite-match-ignores-nan";
+pub const KF_FLOAT: &str = "prune-float-total-order";
+pub const KF_ROUND: &str = "definite-f64-rounding";
+pub const KF_NARROW: &str = "prune-i32-narrowing";
+
+const COLS: [(&str, ColType); 6] = [
+    ("rid", ColType::Int),
+    ("k0", ColType::Int),
+    ("i0", ColType::Int32),
+    ("f0", ColType::Double),
+    ("s0", ColType::Str),
+    ("d0", ColType::Date),
+];
+const TWO53: i64 = 1 << 53;
+
+// ---------------------------------------------------------------------------
+// predicate AST (library independent)
+// ---------------------------------------------------------------------------
+#[derive(Clone, Debug, Serialize, Deserialize, PartialEq)]
+pub enum Lit {
+    I64(i64),
+    I32(i32),
+    /// f64 bit pattern
+    F64(i64),
+    /// f32 bit pattern
+    F32(u32),
+    Date(i32),
+    Str(String),
+    /// microseconds
+    Ts(i64),
+}
+#[derive(Clone, Copy, Debug, Serialize, Deserialize, PartialEq, Eq)]
+pub enum Cmp {
+    Eq,
+    Ne,
+    Lt,
+    Le,
+    Gt,
+    Ge,
+}
+#[derive(Clone, Debug, Serialize, Deserialize, PartialEq)]
+pub enum P {
+    /// col <op> lit, or lit <op> col when `lit_left`
+    Cmp { col: u8, op: Cmp, lit: Lit, lit_left: bool },
+    Between { col: u8, lo: Lit, hi: Lit, neg: bool },
+    In { col: u8, list: Vec<Lit>, neg: bool },
+    ColCol { a: u8, op: Cmp, b: u8 },
+    Not(Box<P>),
+    And(Box<P>, Box<P>),
+    Or(Box<P>, Box<P>),
+}
+
+fn cmp_op(c: Cmp) -> BinaryOp {
+    match c {
+        Cmp::Eq => BinaryOp::Eq,
+        Cmp::Ne => BinaryOp::NotEq,
+        Cmp::Lt => BinaryOp::Lt,
+        Cmp::Le => BinaryOp::LtEq,
+        Cmp::Gt => BinaryOp::Gt,
+        Cmp::Ge => BinaryOp::GtEq,
+    }
+}
+fn cmp_sql(c: Cmp) -> &'static str {
+    match c {
+        Cmp::Eq => "=",
+        Cmp::Ne => "<>",
+        Cmp::Lt => "<",
+        Cmp::Le => "<=",
+        Cmp::Gt => ">",
+        Cmp::Ge => ">=",
+    }
+}
+fn lit_scalar(l: &Lit) -> ScalarValue {
+    match l {
+        Lit::I64(v) => ScalarValue::Int64(*v),
+        Lit::I32(v) => ScalarValue::Int32(*v),
+        Lit::F64(b) => ScalarValue::Float64(f64::from_bits(*b as u64).into()),
+        Lit::F32(b) => ScalarValue::Float32(f32::from_bits(*b).into()),
+        Lit::Date(v) => ScalarValue::Date32(*v),
+        Lit::Str(s) => ScalarValue::Utf8(s.clone()),
+        Lit::Ts(v) => ScalarValue::Timestamp(*v),
+    }
+}
+fn colx(c: u8) -> Expr {
+    Expr::Column(Column::new(COLS[c as usize].0))
+}
+fn litx(l: &Lit) -> Expr {
+    Expr::Literal(lit_scalar(l))
+}
+fn bin(l: Expr, op: BinaryOp, r: Expr) -> Expr {
+    Expr::BinaryExpr { left: Box::new(l), op, right: Box::new(r) }
+}
+pub fn to_expr(p: &P) -> Expr {
+    match p {
+        P::Cmp { col, op, lit, lit_left } => {
+            if *lit_left {
+                bin(litx(lit), cmp_op(*op), colx(*col))
+            } else {
+                bin(colx(*col), cmp_op(*op), litx(lit))
+            }
+        }
+        P::Between { col, lo, hi, neg } => Expr::Between {
+            expr: Box::new(colx(*col)),
+            low: Box::new(litx(lo)),
+            high: Box::new(litx(hi)),
+            negated: *neg,
+        },
+        P::In { col, list, neg } => Expr::InList {
+            expr: Box::new(colx(*col)),
+            list: list.iter().map(litx).collect(),
+            negated: *neg,
+        },
+        P::ColCol { a, op, b } => bin(colx(*a), cmp_op(*op), colx(*b)),
+        P::Not(x) => Expr::UnaryExpr { op: UnaryOp::Not, expr: Box::new(to_expr(x)) },
+        P::And(a, b) => bin(to_expr(a), BinaryOp::And, to_expr(b)),
+        P::Or(a, b) => bin(to_expr(a), BinaryOp::Or, to_expr(b)),
+    }
+}
+fn lit_sql(l: &Lit) -> Option<String> {
+    match l {
+        Lit::I64(v) => {
+            if *v == i64::MIN {
+                None
+            } else {
+                Some(Value::Int(*v).sql())
+            }
+        }
+        Lit::I32(v) => Some(Value::Int(*v as i64).sql()),
+        Lit::F64(b) => {
+            let v = f64::from_bits(*b as u64);
+            if !v.is_finite() || (v == 0.0 && v.is_sign_negative()) {
+                None
+            } else {
+                Some(Value::Double(v).sql())
+            }
+        }
+        Lit::F32(_) | Lit::Ts(_) => None,
+        Lit::Date(d) => {
+            if *d < -700000 || *d > 2900000 {
+                None
+            } else {
+                Some(Value::Date(*d).sql())
+            }
+        }
+        Lit::Str(s) => Some(Value::Str(s.clone()).sql()),
+    }
+}
+pub fn to_sql(p: &P) -> Option<String> {
+    Some(match p {
+        P::Cmp { col, op, lit, lit_left } => {
+            let c = COLS[*col as usize].0;
+            if *lit_left {
+                format!("({} {} {})", lit_sql(lit)?, cmp_sql(*op), c)
+            } else {
+                format!("({} {} {})", c, cmp_sql(*op), lit_sql(lit)?)
+            }
+        }
+        P::Between { col, lo, hi, neg } => format!(
+            "({} {}BETWEEN {} AND {})",
+            COLS[*col as usize].0,
+            if *neg { "NOT " } else { "" },
+            lit_sql(lo)?,
+            lit_sql(hi)?
+        ),
+        P::In { col, list, neg } => {
+            if list.is_empty() {
+                return None;
+            }
+            let items: Option<Vec<String>> = list.iter().map(lit_sql).collect();
+            format!("({} {}IN ({}))", COLS[*col as usize].0, if *neg { "NOT " } else { "" }, items?.join(", "))
+        }
+        P::ColCol { a, op, b } => format!("({} {} {})", COLS[*a as usize].0, cmp_sql(*op), COLS[*b as usize].0),
+        P::Not(x) => format!("(NOT {})", to_sql(x)?),
+        P::And(a, b) => format!("({} AND {})", to_sql(a)?, to_sql(b)?),
+        P::Or(a, b) => format!("({} OR {})", to_sql(a)?, to_sql(b)?),
+    })
+}
+fn has_or(p: &P) -> bool {
+    match p {
+        P::Or(..) => true,
+        P::Not(x) => has_or(x),
+        P::And(a, b) => has_or(a) || has_or(b),
+        _ => false,
+    }
+}
+
+// ---------------------------------------------------------------------------
+// case
+// ---------------------------------------------------------------------------
+#[derive(Clone, Debug, Serialize, Deserialize)]
+pub struct Case {
+    /// rows of (k0, i0, f0, s0, d0); rid is added as the row index
+    pub rows: Vec<Vec<Value>>,
+    pub rg_size: usize,
+    /// row index where a second file starts (0 / >= len: single file)
+    pub file_cut: usize,
+    /// statistics disabled for column (indexed like COLS, rid first)
+    pub stats_off: Vec<bool>,
+    /// statistics truncate length (None = writer default)
+    pub truncate: Option<usize>,
+    pub dictionary: bool,
+    pub pred: P,
+}
+
+fn table_of(c: &Case) -> Table {
+    Table {
+        name: "t".into(),
+        cols: COLS.iter().map(|(n, t)| data::Column { name: n.to_string(), ty: *t }).collect(),
+        rows: c
+            .rows
+            .iter()
+            .enumerate()
+            .map(|(i, r)| {
+                let mut v = vec![Value::Int(i as i64)];
+                v.extend(r.iter().cloned());
+                v
+            })
+            .collect(),
+    }
+}
+
+/// Own writer: per-column statistics switch and truncate length.
+fn write_files(c: &Case, t: &Table, dir: &Path) -> Vec<PathBuf> {
+    use parquet::arrow::ArrowWriter;
+    use parquet::file::properties::{EnabledStatistics, WriterProperties};
+    use parquet::schema::types::ColumnPath;
+    std::fs::create_dir_all(dir).unwrap();
+    let n = t.rows.len();
+    let cut = if c.file_cut == 0 || c.file_cut >= n { n } else { c.file_cut };
+    let mut ranges = vec![(0usize, cut)];
+    if cut < n {
+        ranges.push((cut, n));
+    }
+    let mut out = vec![];
+    for (fi, (lo, hi)) in ranges.into_iter().enumerate() {
+        let mut b = WriterProperties::builder()
+            .set_max_row_group_size(c.rg_size.max(1))
+            .set_statistics_enabled(EnabledStatistics::Chunk)
+            .set_dictionary_enabled(c.dictionary);
+        if let Some(tl) = c.truncate {
+            b = b.set_statistics_truncate_length(Some(tl.max(1)));
+        }
+        for (i, (name, _)) in COLS.iter().enumerate() {
+            if c.stats_off.get(i).copied().unwrap_or(false) {
+                b = b.set_column_statistics_enabled(ColumnPath::from(*name), EnabledStatistics::None);
+            }
+        }
+        let p = dir.join(format!("part-{:03}.parquet", fi));
+        let f = std::fs::File::create(&p).unwrap();
+        let mut w = ArrowWriter::try_new(f, t.schema(), Some(b.build())).unwrap();
+        let batch = t.batch(lo, hi);
+        if batch.num_rows() > 0 {
+            w.write(&batch).unwrap();
+        }
+        w.close().unwrap();
+        out.push(p);
+    }
+    out
+}
+
+fn read_footer_and_groups(p: &Path) -> Result<(Arc<ParquetMetaData>, SchemaRef, Vec<RecordBatch>), String> {
+    let f = std::fs::File::open(p).map_err(|e| e.to_string())?;
+    let b = ParquetRecordBatchReaderBuilder::try_new(f).map_err(|e| e.to_string())?;
+    let meta = b.metadata().clone();
+    let schema = b.schema().clone();
+    let mut groups = vec![];
+    for i in 0..meta.num_row_groups() {
+        let f = std::fs::File::open(p).map_err(|e| e.to_string())?;
+        let r = ParquetRecordBatchReaderBuilder::try_new(f)
+            .map_err(|e| e.to_string())?
+            .with_row_groups(vec![i])
+            .build()
+            .map_err(|e| e.to_string())?;
+        let bs: Vec<RecordBatch> = r.collect::<Result<Vec<_>, _>>().map_err(|e| e.to_string())?;
+        groups.push(arrow::compute::concat_batches(&schema, &bs).map_err(|e| e.to_string())?);
+    }
+    Ok((meta, schema, groups))
+}
+
+// ---------------------------------------------------------------------------
+// oracles over the engine's Expr
+// ---------------------------------------------------------------------------
+fn bool_vec(a: &ArrayRef) -> Result<Vec<Option<bool>>, String> {
+    let b = a.as_any().downcast_ref::<BooleanArray>().ok_or("predicate did not evaluate to boolean")?;
+    Ok((0..b.len()).map(|i| if b.is_valid(i) { Some(b.value(i)) } else { None }).collect())
+}
+/// the interpreter's verdict per row
+fn interp(e: &Expr, b: &RecordBatch) -> Result<Vec<Option<bool>>, String> {
+    let r = std::panic::catch_unwind(std::panic::AssertUnwindSafe(|| evaluate_expr(b, e)))
+        .map_err(|p| format!("PANIC: {}", engine::panic_text(p)))?
+        .map_err(|e| e.to_string())?;
+    bool_vec(&r)
+}
+/// atoms by the interpreter, AND/OR/NOT by SQL three-valued logic
+fn kleene(e: &Expr, b: &RecordBatch) -> Result<Vec<Option<bool>>, String> {
+    match e {
+        Expr::BinaryExpr { left, op: BinaryOp::And, right } => {
+            let (l, r) = (kleene(left, b)?, kleene(right, b)?);
+            Ok(l.iter()
+                .zip(r.iter())
+                .map(|(x, y)| match (x, y) {
+                    (Some(false), _) | (_, Some(false)) => Some(false),
+                    (Some(true), Some(true)) => Some(true),
+                    _ => None,
+                })
+                .collect())
+        }
+        Expr::BinaryExpr { left, op: BinaryOp::Or, right } => {
+            let (l, r) = (kleene(left, b)?, kleene(right, b)?);
+            Ok(l.iter()
+                .zip(r.iter())
+                .map(|(x, y)| match (x, y) {
+                    (Some(true), _) | (_, Some(true)) => Some(true),
+                    (Some(false), Some(false)) => Some(false),
+                    _ => None,
+                })
+                .collect())
+        }
+        Expr::UnaryExpr { op: UnaryOp::Not, expr } => Ok(kleene(expr, b)?.into_iter().map(|v| v.map(|x| !x)).collect()),
+        Expr::Alias { expr, .. } => kleene(expr, b),
+        _ => interp(e, b),
+    }
+}
+
+/// comparison atoms the pruner reasons about (BETWEEN / IN lowered the way
+/// row_group_pruning lowers them)
+fn atoms(e: &Expr, out: &mut Vec<Expr>) {
+    match e {
+        Expr::BinaryExpr { left, op: BinaryOp::And | BinaryOp::Or, right } => {
+            atoms(left, out);
+            atoms(right, out);
+        }
+        Expr::BinaryExpr { .. } => out.push(e.clone()),
+        Expr::UnaryExpr { op: UnaryOp::Not, expr } => atoms(expr, out),
+        Expr::Alias { expr, .. } => atoms(expr, out),
+        Expr::Between { expr, low, high, .. } => {
+            out.push(bin((**expr).clone(), BinaryOp::GtEq, (**low).clone()));
+            out.push(bin((**expr).clone(), BinaryOp::LtEq, (**high).clone()));
+        }
+        Expr::InList { expr, list, .. } => {
+            for v in list {
+                out.push(bin((**expr).clone(), BinaryOp::Eq, v.clone()));
+            }
+        }
+        _ => {}
+    }
+}
+fn col_lit(e: &Expr) -> Option<(&str, &ScalarValue)> {
+    if let Expr::BinaryExpr { left, right, .. } = e {
+        match (&**left, &**right) {
+            (Expr::Column(c), Expr::Literal(l)) | (Expr::Literal(l), Expr::Column(c)) => return Some((c.name.as_str(), l)),
+            _ => {}
+        }
+    }
+    None
+}
+fn lit_f64(l: &ScalarValue) -> Option<f64> {
+    Some(match l {
+        ScalarValue::Int64(v) | ScalarValue::Timestamp(v) => *v as f64,
+        ScalarValue::Int32(v) | ScalarValue::Date32(v) => *v as f64,
+        ScalarValue::Float64(v) => v.into_inner(),
+        ScalarValue::Float32(v) => v.into_inner() as f64,
+        _ => return None,
+    })
+}
+fn lit_i128(l: &ScalarValue) -> Option<i128> {
+    Some(match l {
+        ScalarValue::Int64(v) | ScalarValue::Timestamp(v) => *v as i128,
+        ScalarValue::Int32(v) | ScalarValue::Date32(v) => *v as i128,
+        _ => return None,
+    })
+}
+
+/// Which open finding (if any) explains that `atom` is judged unsoundly in row
+/// group `b`. `unsound_def`: definitely_matches said true wrongly (else the
+/// might-match side was wrong).
+fn explain_atom(atom: &Expr, b: &RecordBatch, unsound_def: bool) -> Option<&'static str> {
+    let (cname, lit) = col_lit(atom)?;
+    let idx = b.schema().index_of(cname).ok()?;
+    let col = b.column(idx);
+    match col.data_type() {
+        DataType::Float64 => {
+            let a = col.as_any().downcast_ref::<Float64Array>()?;
+            let vals: Vec<f64> = (0..a.len()).filter(|i| a.is_valid(*i)).map(|i| a.value(i)).collect();
+            let has_nan = vals.iter().any(|v| v.is_nan());
+            let has_zero = vals.iter().any(|v| *v == 0.0);
+            let lf = lit_f64(lit)?;
+            if unsound_def && has_nan {
+                return Some(KF_NAN_DEF);
+            }
+            if has_nan || lf.is_nan() || (lf == 0.0 && has_zero) {
+                return Some(KF_FLOAT);
+            }
+            None
+        }
+        DataType::Int64 => {
+            let a = col.as_any().downcast_ref::<Int64Array>()?;
+            let vals: Vec<i64> = (0..a.len()).filter(|i| a.is_valid(*i)).map(|i| a.value(i)).collect();
+            let outside_i32 = vals.iter().any(|v| *v > i32::MAX as i64 || *v < i32::MIN as i64);
+            if !unsound_def && matches!(lit, ScalarValue::Int32(_) | ScalarValue::Date32(_)) && outside_i32 {
+                return Some(KF_NARROW);
+            }
+            let big = |x: i128| x.abs() > TWO53 as i128;
+            if unsound_def && (lit_i128(lit).map(big).unwrap_or(false) || vals.iter().any(|v| big(*v as i128))) {
+                return Some(KF_ROUND);
+            }
+            None
+        }
+        _ => None,
+    }
+}
+
+/// row rendering that cannot fail on extreme dates
+fn show_rows(rows: &[Vec<Value>], max: usize) -> String {
+    let mut out = String::new();
+    for r in rows.iter().take(max) {
+        let cells: Vec<String> = r
+            .iter()
+            .map(|v| match v {
+                Value::Date(d) => format!("DATE({})", d),
+                o => data::fmt_value(o),
+            })
+            .collect();
+        out.push_str(&format!("({}) ", cells.join(", ")));
+    }
+    if rows.len() > max {
+        out.push_str(&format!("… {} rows", rows.len()));
+    }
+    if rows.is_empty() {
+        out.push_str("(no rows)");
+    }
+    out
+}
+
+pub struct Analysis {
+    pub n_groups: usize,
+    pub pruned: usize,
+    pub definite: usize,
+    pub verdict: Verdict,
+    pub labels: Vec<String>,
+}
+
+/// (a)/(b) for one file: `pred` is the engine expression handed to the pruner.
+fn analyse(pred: &Expr, meta: &ParquetMetaData, schema: &SchemaRef, groups: &[RecordBatch], p_has_or: bool) -> Analysis {
+    let n = groups.len();
+    let mut an = Analysis { n_groups: n, pruned: 0, definite: 0, verdict: Verdict::Pass, labels: vec![] };
+    let kept = match std::panic::catch_unwind(std::panic::AssertUnwindSafe(|| prune_row_groups(meta, schema, Some(pred)))) {
+        Ok(k) => k,
+        Err(p) => {
+            an.verdict = Verdict::Fail(format!("prune_row_groups panicked: {} ; predicate {}", engine::panic_text(p), pred));
+            return an;
+        }
+    };
+    if kept.windows(2).any(|w| w[0] >= w[1]) || kept.iter().any(|i| *i >= n) {
+        an.verdict = Verdict::Fail(format!("prune_row_groups returned {:?} for {} row groups", kept, n));
+        return an;
+    }
+    an.pruned = n - kept.len();
+    let mut at = vec![];
+    atoms(pred, &mut at);
+    let mut known: Option<(&'static str, String)> = None;
+    for (g, b) in groups.iter().enumerate() {
+        let truth = match interp(pred, b) {
+            Ok(t) => t,
+            Err(e) => {
+                an.labels.push(format!("interpreter-error:{}", e.chars().take(50).collect::<String>()));
+                an.verdict = Verdict::Pass;
+                an.pruned = 0;
+                an.definite = 0;
+                return an;
+            }
+        };
+        let kl = kleene(pred, b).unwrap_or_else(|_| truth.clone());
+        let is_pruned = !kept.contains(&g);
+        let definite = std::panic::catch_unwind(std::panic::AssertUnwindSafe(|| {
+            row_group_definitely_matches(pred, meta.row_group(g), schema)
+        }))
+        .unwrap_or(false);
+        if definite {
+            an.definite += 1;
+        }
+        let lost = is_pruned && truth.iter().any(|v| *v == Some(true));
+        let def_wrong_sql = definite && kl.iter().any(|v| *v != Some(true));
+        let def_wrong_interp = definite && truth.iter().any(|v| *v != Some(true));
+        if !(lost || def_wrong_sql || def_wrong_interp) {
+            continue;
+        }
+        let what = if lost {
+            format!(
+                "row group {} is pruned but the interpreter keeps row {} of it",
+                g,
+                truth.iter().position(|v| *v == Some(true)).unwrap()
+            )
+        } else {
+            format!(
+                "row_group_definitely_matches is true for row group {} but the predicate is {:?} at row {} of it",
+                g,
+                truth.iter().find(|v| **v != Some(true)).unwrap(),
+                truth.iter().position(|v| *v != Some(true)).unwrap()
+            )
+        };
+        let msg = format!(
+            "{} ; predicate {} ; row group rows: {}",
+            what,
+            pred,
+            show_rows(&data::batches_to_rows(&[b.clone()]), 8)
+        );
+        // attribute to unsound atoms
+        let mut unsound: Vec<(Expr, bool)> = vec![];
+        for a in &at {
+            let t = match interp(a, b) {
+                Ok(t) => t,
+                Err(_) => continue,
+            };
+            let might = row_group_might_match(a, meta.row_group(g), schema);
+            let def = row_group_definitely_matches(a, meta.row_group(g), schema);
+            if !might && t.iter().any(|v| *v == Some(true)) {
+                unsound.push((a.clone(), false));
+            }
+            if def && t.iter().any(|v| *v != Some(true)) {
+                unsound.push((a.clone(), true));
+            }
+        }
+        if unsound.is_empty() {
+            let _ = (def_wrong_sql, def_wrong_interp, p_has_or);
+            an.verdict = Verdict::Fail(format!("{} ; every comparison atom is judged soundly, so the combination is wrong", msg));
+            return an;
+        }
+        let mut ids = vec![];
+        for (a, d) in &unsound {
+            match explain_atom(a, b, *d) {
+                Some(id) => ids.push(id),
+                None => {
+                    an.verdict = Verdict::Fail(format!(
+                        "{} ; unsound atom {} ({})",
+                        msg,
+                        a,
+                        if *d { "definitely_matches wrongly true" } else { "might_match wrongly false" }
+                    ));
+                    return an;
+                }
+            }
+        }
+        // most user-visible first
+        for id in [KF_NAN_DEF, KF_NARROW, KF_ROUND, KF_FLOAT] {
+            if ids.contains(&id) {
+                known.get_or_insert((id, msg.clone()));
+                break;
+            }
+        }
+    }
+    if let Some((id, msg)) = known {
+        an.labels.push(format!("hit:{}", id));
+        an.verdict = Verdict::Known { id: id.into(), msg };
+    }
+    an
+}
+
+// ---------------------------------------------------------------------------
+// generators
+// ---------------------------------------------------------------------------
+#[derive(Clone, Copy, Debug)]
+struct Prof {
+    /// NaN / -0.0 / inf in doubles
+    fspecial: bool,
+    /// BIGINT beyond 2^53 / outside i32
+    big: bool,
+    /// i64::MIN / i64::MAX neighbourhood allowed (the Parquet registration's
+    /// ndv estimate overflows on `max - min` in debug builds — C18's subject —
+    /// so the end-to-end checks stay inside +-2^53)
+    extreme: bool,
+}
+fn fb(v: f64) -> i64 {
+    v.to_bits() as i64
+}
+const STR_POOL: [&str; 14] = [
+    "", "a", "ab", "abc", "b", "B", "z", "é", "éa", "日本", "~",
+    "xxxxxxxxxxxxxxxxxxxxxxxxxxxxxxxxxxxxxxxxxxxxxxxxxxxxxxxxxxxxxxxxa",
+    "xxxxxxxxxxxxxxxxxxxxxxxxxxxxxxxxxxxxxxxxxxxxxxxxxxxxxxxxxxxxxxxxb",
+    "éééééééééééééééééééééééééééééééééééééééé",
+];
+fn k_base(p: Prof) -> BoxedStrategy<i64> {
+    if p.big {
+        prop_oneof![
+            3 => prop_oneof![Just(-5i64), Just(0), Just(5), Just(10), Just(100)],
+            2 => if p.extreme {
+                prop_oneof![Just(TWO53 - 2), Just(TWO53), Just(-TWO53 - 3), Just(i64::MAX - 4), Just(i64::MIN)].boxed()
+            } else {
+                prop_oneof![Just(TWO53 - 2), Just(TWO53), Just(-TWO53 - 3)].boxed()
+            },
+            2 => prop_oneof![Just(i32::MAX as i64 - 2), Just(1i64 << 32), Just((1i64 << 32) + 3), Just(i32::MIN as i64 - 3), Just(1i64 << 31)],
+        ]
+        .boxed()
+    } else {
+        prop_oneof![Just(-5i64), Just(0), Just(5), Just(10), Just(100), Just(1_000_000)].boxed()
+    }
+}
+fn i_base() -> BoxedStrategy<i64> {
+    prop_oneof![
+        6 => prop_oneof![Just(-5i64), Just(0), Just(5), Just(10), Just(100)],
+        1 => Just(i32::MAX as i64 - 4),
+        1 => Just(i32::MIN as i64),
+    ]
+    .boxed()
+}
+fn d_base() -> BoxedStrategy<i64> {
+    prop_oneof![
+        6 => prop_oneof![Just(10957i64), Just(10960), Just(10965), Just(0), Just(-3)],
+        1 => Just(i32::MAX as i64 - 4),
+        1 => Just(i32::MIN as i64),
+    ]
+    .boxed()
+}
+fn f_base() -> BoxedStrategy<f64> {
+    prop_oneof![Just(-1.0f64), Just(0.0), Just(0.5), Just(1.0), Just(10.0), Just(9007199254740992.0), Just(1e300), Just(-1e300)].boxed()
+}
+fn f_special() -> BoxedStrategy<f64> {
+    prop_oneof![
+        3 => Just(f64::NAN),
+        1 => Just(-f64::NAN),
+        3 => Just(-0.0f64),
+        2 => Just(0.0f64),
+        1 => Just(f64::INFINITY),
+        1 => Just(f64::NEG_INFINITY),
+    ]
+    .boxed()
+}
+fn sat_add(b: i64, o: i64, lo: i64, hi: i64) -> i64 {
+    b.saturating_add(o).clamp(lo, hi)
+}
+
+/// the five data cells (k0,i0,f0,s0,d0) of one row group of `n` rows
+fn row_group(p: Prof, n: usize) -> BoxedStrategy<Vec<Vec<Value>>> {
+    let nullp = prop_oneof![3 => Just(0u32), 3 => Just(25u32), 1 => Just(100u32)];
+    let cell_sel = proptest::collection::vec((0u32..100, 0i64..4, 0u32..100), n);
+    (
+        (k_base(p), nullp.clone(), cell_sel.clone()),
+        (i_base(), nullp.clone(), cell_sel.clone()),
+        (f_base(), nullp.clone(), cell_sel.clone(), proptest::collection::vec(f_special(), n)),
+        (0usize..STR_POOL.len(), nullp.clone(), cell_sel.clone()),
+        (d_base(), nullp, cell_sel),
+    )
+        .prop_map(move |(k, i, f, s, d)| {
+            (0..n)
+                .map(|r| {
+                    let kv = if k.2[r].0 < k.1 { Value::Null } else { Value::Int(sat_add(k.0, k.2[r].1, i64::MIN, i64::MAX)) };
+                    let iv = if i.2[r].0 < i.1 {
+                        Value::Null
+                    } else {
+                        Value::Int(sat_add(i.0, i.2[r].1, i32::MIN as i64, i32::MAX as i64))
+                    };
+                    let fv = if f.2[r].0 < f.1 {
+                        Value::Null
+                    } else if p.fspecial && f.2[r].2 < 35 {
+                        Value::Double(f.3[r])
+                    } else {
+                        Value::Double(f.0 + f.2[r].1 as f64 * 0.25)
+                    };
+                    let sv = if s.2[r].0 < s.1 {
+                        Value::Null
+                    } else {
+                        Value::Str(STR_POOL[(s.0 + s.2[r].1 as usize) % STR_POOL.len()].to_string())
+                    };
+                    let dv = if d.2[r].0 < d.1 {
+                        Value::Null
+                    } else {
+                        Value::Date(sat_add(d.0, d.2[r].1, i32::MIN as i64, i32::MAX as i64) as i32)
+                    };
+                    vec![kv, iv, fv, sv, dv]
+                })
+                .collect::<Vec<_>>()
+        })
+        .boxed()
+}
+
+/// literal near the values a column holds; `sql_only` restricts to literal
+/// types SQL text can spell
+fn int_lit_value(p: Prof, col: u8) -> BoxedStrategy<i64> {
+    let base = match col {
+        1 => k_base(p),
+        2 => i_base(),
+        _ => d_base(),
+    };
+    (base, -1i64..5).prop_map(|(b, o)| b.saturating_add(o)).boxed()
+}
+fn f_lit_value(p: Prof) -> BoxedStrategy<f64> {
+    if p.fspecial {
+        prop_oneof![3 => (f_base(), -1i64..5).prop_map(|(b, o)| b + o as f64 * 0.25), 2 => f_special()].boxed()
+    } else {
+        (f_base(), -1i64..5).prop_map(|(b, o)| b + o as f64 * 0.25).boxed()
+    }
+}
+fn lit_for(p: Prof, col: u8, sql_only: bool) -> BoxedStrategy<Lit> {
+    let clamp32 = |v: i64| v.clamp(i32::MIN as i64, i32::MAX as i64) as i32;
+    match col {
+        // k0 BIGINT
+        1 => {
+            let v = int_lit_value(p, 1);
+            if sql_only {
+                prop_oneof![6 => v.clone().prop_map(Lit::I64), 1 => v.prop_map(|x| Lit::F64(fb(x as f64)))].boxed()
+            } else {
+                prop_oneof![
+                    6 => v.clone().prop_map(Lit::I64),
+                    2 => int_lit_value(p, 2).prop_map(move |x| Lit::I32(clamp32(x))),
+                    1 => int_lit_value(p, 5).prop_map(move |x| Lit::Date(clamp32(x))),
+                    1 => v.clone().prop_map(Lit::Ts),
+                    1 => v.prop_map(|x| Lit::F64(fb(x as f64))),
+                ]
+                .boxed()
+            }
+        }
+        // i0 INTEGER
+        2 => {
+            let v = int_lit_value(p, 2);
+            if sql_only {
+                prop_oneof![6 => v.clone().prop_map(Lit::I64), 1 => v.prop_map(|x| Lit::F64(fb(x as f64 + 0.5)))].boxed()
+            } else {
+                prop_oneof![
+                    4 => v.clone().prop_map(move |x| Lit::I32(clamp32(x))),
+                    4 => v.clone().prop_map(Lit::I64),
+                    1 => int_lit_value(p, 1).prop_map(Lit::I64),
+                    1 => v.clone().prop_map(Lit::Ts),
+                    1 => v.prop_map(|x| Lit::F64(fb(x as f64 + 0.5))),
+                ]
+                .boxed()
+            }
+        }
+        // f0 DOUBLE
+        3 => {
+            let v = f_lit_value(if sql_only { Prof { fspecial: false, ..p } } else { p });
+            if sql_only {
+                prop_oneof![6 => v.prop_map(|x| Lit::F64(fb(x))), 1 => (-2i64..12).prop_map(Lit::I64)].boxed()
+            } else {
+                prop_oneof![
+                    6 => v.clone().prop_map(|x| Lit::F64(fb(x))),
+                    1 => v.prop_map(|x| Lit::F32((x as f32).to_bits())),
+                    1 => (-2i64..12).prop_map(Lit::I64),
+                    1 => (-2i32..12).prop_map(Lit::I32),
+                ]
+                .boxed()
+            }
+        }
+        // s0 VARCHAR
+        4 => prop_oneof![
+            8 => (0usize..STR_POOL.len()).prop_map(|i| Lit::Str(STR_POOL[i].to_string())),
+            1 => Just(Lit::Str("xxxxxxxxxxxxxxxxxxxxxxxxxxxxxxxxxxxxxxxxxxxxxxxxxxxxxxxxxxxxxxxx".into())),
+            1 => Just(Lit::Str("éé".into())),
+            1 => Just(Lit::Str("x".into())),
+        ]
+        .boxed(),
+        // d0 DATE
+        _ => {
+            let v = int_lit_value(p, 5);
+            if sql_only {
+                v.prop_map(move |x| Lit::Date(clamp32(x).clamp(-700000, 2900000))).boxed()
+            } else {
+                prop_oneof![
+                    6 => v.clone().prop_map(move |x| Lit::Date(clamp32(x))),
+                    1 => v.clone().prop_map(move |x| Lit::I32(clamp32(x))),
+                    1 => v.prop_map(Lit::I64),
+                ]
+                .boxed()
+            }
+        }
+    }
+}
+fn cmp_any() -> BoxedStrategy<Cmp> {
+    prop_oneof![Just(Cmp::Eq), Just(Cmp::Ne), Just(Cmp::Lt), Just(Cmp::Le), Just(Cmp::Gt), Just(Cmp::Ge)].boxed()
+}
+fn data_col() -> BoxedStrategy<u8> {
+    prop_oneof![3 => Just(1u8), 2 => Just(2u8), 3 => Just(3u8), 2 => Just(4u8), 2 => Just(5u8)].boxed()
+}
+fn atom(p: Prof, sql_only: bool) -> BoxedStrategy<P> {
+    let cmp = data_col()
+        .prop_flat_map(move |c| (Just(c), cmp_any(), lit_for(p, c, sql_only), prop_oneof![4 => Just(false), 1 => Just(true)]))
+        .prop_map(|(col, op, lit, lit_left)| P::Cmp { col, op, lit, lit_left });
+    let between = data_col()
+        .prop_flat_map(move |c| (Just(c), lit_for(p, c, sql_only), lit_for(p, c, sql_only), prop_oneof![4 => Just(false), 1 => Just(true)]))
+        .prop_map(|(col, lo, hi, neg)| P::Between { col, lo, hi, neg });
+    let inl = data_col()
+        .prop_flat_map(move |c| (Just(c), proptest::collection::vec(lit_for(p, c, sql_only), 1..4), prop_oneof![4 => Just(false), 1 => Just(true)]))
+        .prop_map(|(col, list, neg)| P::In { col, list, neg });
+    let colcol = (prop_oneof![Just((1u8, 2u8)), Just((2u8, 1u8)), Just((1u8, 0u8)), Just((3u8, 1u8))], cmp_any())
+        .prop_map(|((a, b), op)| P::ColCol { a, op, b });
+    prop_oneof![10 => cmp, 3 => between, 2 => inl, 1 => colcol].boxed()
+}
+fn pred(p: Prof, depth: u32, sql_only: bool) -> BoxedStrategy<P> {
+    if depth == 0 {
+        return atom(p, sql_only);
+    }
+    let sub = pred(p, depth - 1, sql_only);
+    prop_oneof![
+        5 => atom(p, sql_only),
+        3 => (sub.clone(), sub.clone()).prop_map(|(a, b)| P::And(Box::new(a), Box::new(b))),
+        2 => (sub.clone(), sub.clone()).prop_map(|(a, b)| P::Or(Box::new(a), Box::new(b))),
+        2 => sub.prop_map(|a| P::Not(Box::new(a))),
+    ]
+    .boxed()
+}
+
+fn case_strategy(sql_only: bool, fspecial_pct: u32, big_pct: u32, extreme: bool) -> BoxedStrategy<Case> {
+    (0u32..100, 0u32..100, 1usize..6, 2usize..13)
+        .prop_flat_map(move |(a, b, rg_size, n_groups)| {
+            let p = Prof { fspecial: a < fspecial_pct, big: b < big_pct, extreme };
+            (
+                proptest::collection::vec(row_group(p, rg_size), n_groups),
+                // last group may be short
+                0usize..rg_size,
+                Just(rg_size),
+                0usize..(rg_size * n_groups + 1),
+                proptest::collection::vec(prop_oneof![12 => Just(false), 1 => Just(true)], COLS.len()),
+                prop_oneof![4 => Just(None), 1 => Just(Some(1usize)), 1 => Just(Some(2usize)), 1 => Just(Some(5usize)), 1 => Just(Some(64usize))],
+                any::<bool>(),
+                pred(p, 2, sql_only),
+                prop_oneof![2 => Just(false), 1 => Just(true)],
+            )
+        })
+        .prop_map(|(groups, drop_tail, rg_size, cut, stats_off, truncate, dictionary, pred, two_files)| {
+            let mut rows: Vec<Vec<Value>> = groups.into_iter().flatten().collect();
+            let keep = rows.len() - drop_tail.min(rows.len().saturating_sub(1));
+            rows.truncate(keep);
+            // a second file starts on a row-group boundary
+            let file_cut = if two_files { (cut / rg_size) * rg_size } else { 0 };
+            Case { rows, rg_size, file_cut, stats_off, truncate, dictionary, pred }
+        })
+        .boxed()
+}
+
+// ---------------------------------------------------------------------------
+// check 1: direct API
+// ---------------------------------------------------------------------------
+pub struct Prune;
+impl Check for Prune {
+    type Case = Case;
+    fn name(&self) -> &'static str {
+        "prune"
+    }
+    fn rule(&self) -> &'static str {
+        "the interpreter evaluates the predicate without error and the predicate prunes, or is proven whole-passing for, at least one but not all row groups of the file"
+    }
+    fn cases(&self, tier: Tier) -> u32 {
+        tier.pick(6000, 200_000)
+    }
+    fn strategy(&self, _tier: Tier) -> BoxedStrategy<Case> {
+        case_strategy(false, 20, 25, true)
+    }
+    fn test(&self, c: &Case, obs: &mut Obs) -> Verdict {
+        if c.rows.is_empty() || c.rows.iter().any(|r| r.len() != 5) {
+            return Verdict::Discard("malformed case".into());
+        }
+        let t = table_of(c);
+        let tmp = TempDir::new("c05");
+        // direct check looks at one file holding all rows
+        let one = Case { file_cut: 0, ..c.clone() };
+        let files = write_files(&one, &t, tmp.path());
+        let (meta, schema, groups) = match read_footer_and_groups(&files[0]) {
+            Ok(x) => x,
+            Err(e) => return Verdict::Discard(format!("cannot read back the written file: {}", e.chars().take(60).collect::<String>())),
+        };
+        let expr = to_expr(&c.pred);
+        let an = analyse(&expr, &meta, &schema, &groups, has_or(&c.pred));
+        for l in &an.labels {
+            obs.label(l.clone());
+        }
+        let n = an.n_groups;
+        if an.pruned > 0 && an.pruned < n {
+            obs.label("prunes-some");
+        }
+        if an.pruned == n && n > 0 {
+            obs.label("prunes-all");
+        }
+        if an.definite > 0 && an.definite < n {
+            obs.label("whole-pass-some");
+        }
+        if c.stats_off.iter().skip(1).any(|b| *b) {
+            obs.label("a-column-without-statistics");
+        }
+        obs.nontrivial((an.pruned > 0 && an.pruned < n) || (an.definite > 0 && an.definite < n));
+        obs.sample(serde_json::json!({"predicate": format!("{}", expr), "row_groups": n, "pruned": an.pruned, "whole_pass": an.definite}));
+        an.verdict
+    }
+}
+
+// ---------------------------------------------------------------------------
+// check 2/3: end to end, Parquet registration vs memory registration
+// ---------------------------------------------------------------------------
+fn scan_filters(plan: &LogicalPlan, out: &mut Vec<Expr>) {
+    if let LogicalPlan::Scan(s) = plan {
+        if let Some(f) = &s.filter {
+            out.push(f.clone());
+        }
+    }
+    for ch in plan.children() {
+        scan_filters(ch, out);
+    }
+}
+
+fn e2e_test(c: &Case, obs: &mut Obs, streaming: bool) -> Verdict {
+    if c.rows.is_empty() || c.rows.iter().any(|r| r.len() != 5) {
+        return Verdict::Discard("malformed case".into());
+    }
+    let where_sql = match to_sql(&c.pred) {
+        Some(s) => s,
+        None => return Verdict::Discard("predicate has no SQL spelling".into()),
+    };
+    query_engine::verif_hooks::set_force_big(streaming);
+    let t = table_of(c);
+    let tmp = TempDir::new("c05e");
+    let dir = tmp.path().join("t");
+    let files = write_files(c, &t, &dir);
+    let mut pq = query_engine::ExecutionContext::new();
+    if let Err(e) = pq.register_parquet("t", &dir) {
+        return Verdict::Discard(format!("register_parquet: {}", e.to_string().chars().take(60).collect::<String>()));
+    }
+    let mem = engine::mem_ctx(&[t.clone()]);
+    let queries = [
+        ("rows", format!("SELECT rid FROM t WHERE {}", where_sql)),
+        ("agg", format!("SELECT count(*) AS c, sum(rid) AS s, min(rid) AS lo, max(rid) AS hi FROM t WHERE {}", where_sql)),
+    ];
+    // what the pushed-down scan filter does to the files (for NT and for the
+    // classification of a difference)
+    let mut filters = vec![];
+    let plan = std::panic::catch_unwind(std::panic::AssertUnwindSafe(|| pq.optimized_plan(&queries[0].1)))
+        .ok()
+        .and_then(|r| r.ok());
+    if let Some(plan) = plan {
+        scan_filters(&plan, &mut filters);
+    }
+    let mut total_groups = 0;
+    let mut pruned = 0;
+    let mut definite = 0;
+    let mut direct: Verdict = Verdict::Pass;
+    if let Some(f) = filters.first() {
+        obs.label("scan-filter-pushed");
+        for file in &files {
+            if let Ok((meta, schema, groups)) = read_footer_and_groups(file) {
+                let an = analyse(f, &meta, &schema, &groups, has_or(&c.pred));
+                total_groups += an.n_groups;
+                pruned += an.pruned;
+                definite += an.definite;
+                if !matches!(an.verdict, Verdict::Pass) && matches!(direct, Verdict::Pass) {
+                    direct = an.verdict;
+                }
+            }
+        }
+    } else {
+        obs.label("no-scan-filter");
+    }
+    if pruned > 0 && pruned < total_groups {
+        obs.label("prunes-some");
+    }
+    if definite > 0 && definite < total_groups {
+        obs.label("whole-pass-some");
+    }
+    obs.nontrivial((pruned > 0 && pruned < total_groups) || (definite > 0 && definite < total_groups));
+    // which physical operators answer the queries (evidence only)
+    for (qn, q) in &queries {
+        if let Some(Ok(pp)) = std::panic::catch_unwind(std::panic::AssertUnwindSafe(|| pq.physical_plan(q))).ok() {
+            let mut names = vec![];
+            let mut stack = vec![pp];
+            while let Some(op) = stack.pop() {
+                names.push(op.name().to_string());
+                stack.extend(op.children());
+            }
+            obs.label(format!("plan:{}:{}", qn, names.join(">")));
+        }
+    }
+    for (qn, q) in &queries {
+        let want = engine::run_sql(&mem, q);
+        let got = engine::run_sql(&pq, q);
+        match (&want, &got) {
+            (Ok(w), Ok(g)) => {
+                if data::multiset_eq(w, g, 0.0) {
+                    continue;
+                }
+                let msg = format!(
+                    "{}{} over the Parquet registration returns {} but over the memory registration {}",
+                    if streaming { "[forced streaming scan] " } else { "" },
+                    q,
+                    show_rows(g, 12),
+                    show_rows(w, 12)
+                );
+                return match &direct {
+                    Verdict::Known { id, .. } => Verdict::Known { id: id.clone(), msg },
+                    Verdict::Fail(m) => Verdict::Fail(format!("{}\ndirect analysis of the scan filter: {}", msg, m)),
+                    _ => {
+                        // evaluator disagreement on NaN / -0.0 (compiled IEEE vs
+                        // interpreted totalOrder) is C06's finding, not pruning
+                        let fl = c.rows.iter().any(|r| matches!(&r[2], Value::Double(v) if v.is_nan() || (*v == 0.0 && v.is_sign_negative())));
+                        if fl {
+                            Verdict::Discard("answers differ with NaN/-0.0 present although pruning is sound (evaluator semantics, C06)".into())
+                        } else {
+                            Verdict::Fail(format!("{}\n(the direct analysis of the pushed scan filter found nothing wrong)", msg))
+                        }
+                    }
+                };
+            }
+            (Err(a), Err(_)) => {
+                obs.label(format!("both-error:{}:{}", qn, a.chars().take(40).collect::<String>()));
+            }
+            (Ok(_), Err(e)) => {
+                obs.label(format!("parquet-only-error:{}:{}", qn, e.chars().take(60).collect::<String>()));
+            }
+            (Err(e), Ok(_)) => {
+                obs.label(format!("memory-only-error:{}:{}", qn, e.chars().take(60).collect::<String>()));
+            }
+        }
+    }
+    Verdict::Pass
+}
+
+pub struct E2e;
+impl Check for E2e {
+    type Case = Case;
+    fn name(&self) -> &'static str {
+        "e2e"
+    }
+    fn rule(&self) -> &'static str {
+        "the optimizer pushed a scan filter that prunes, or is proven whole-passing for, at least one but not all row groups of the table's files"
+    }
+    fn cases(&self, tier: Tier) -> u32 {
+        tier.pick(700, 30_000)
+    }
+    fn strategy(&self, _tier: Tier) -> BoxedStrategy<Case> {
+        case_strategy(true, 12, 20, false)
+    }
+    fn test(&self, c: &Case, obs: &mut Obs) -> Verdict {
+        e2e_test(c, obs, false)
+    }
+}
+pub struct E2eStreaming;
+impl Check for E2eStreaming {
+    type Case = Case;
+    fn name(&self) -> &'static str {
+        "e2e_streaming"
+    }
+    fn rule(&self) -> &'static str {
+        "as e2e, with the planner's size gate forced (verif-hooks force_big) so the filtered scan is the streaming Parquet scan that has no FilterExec above it"
+    }
+    fn cases(&self, tier: Tier) -> u32 {
+        tier.pick(400, 20_000)
+    }
+    fn strategy(&self, _tier: Tier) -> BoxedStrategy<Case> {
+        case_strategy(true, 12, 20, false)
+    }
+    fn test(&self, c: &Case, obs: &mut Obs) -> Verdict {
+        e2e_test(c, obs, true)
+    }
+}
+
+/// development aid: VERIF_ONLY_CHECK=<name> runs a single check of the property
+fn only(v: Vec<Box<dyn DynCheck>>) -> Vec<Box<dyn DynCheck>> {
+    match std::env::var("VERIF_ONLY_CHECK") {
+        Ok(n) if v.iter().any(|c| c.name() == n) => v.into_iter().filter(|c| c.name() == n).collect(),
+        _ => v,
+    }
+}
 
 pub fn property() -> Property {
-    Property { id: "C05", level: "exploration", assumptions: &[], checks: vec![] }
+    Property {
+        id: "C05",
+        level: "exploration",
+        assumptions: &[
+            "the semantics pruning must preserve is the engine's interpreter (evaluate_expr) on the decoded rows; for (b) a row group also counts as whole-passing only if SQL three-valued logic over the interpreter's atoms says TRUE on every row",
+            "a predicate the interpreter cannot evaluate (type error) is a trivial case",
+            "end-to-end answers are compared as multisets; the shard scan is covered through prune_row_groups only",
+        ],
+        checks: only(vec![Box::new(Prune), Box::new(E2e), Box::new(E2eStreaming)]),
+    }
 }
